@@ -67,6 +67,32 @@ pub fn dt(v: VT) -> DataType {
         VT::RefNull(t) => DataType::Module { ty_id: t, nullable: true },
         VT::RefNN(t) => DataType::Module { ty_id: t, nullable: false },
         VT::FuncNN => DataType::FuncRef,
+        VT::Abs(k, n) => match (k % 12, n) {
+            (0, true) => DataType::FuncRefNull,
+            (0, false) => DataType::FuncRef,
+            (1, true) => DataType::ExternRefNull,
+            (1, false) => DataType::ExternRef,
+            (2, true) => DataType::AnyNull,
+            (2, false) => DataType::Any,
+            (3, true) => DataType::NoneNull,
+            (3, false) => DataType::None,
+            (4, true) => DataType::NoExternNull,
+            (4, false) => DataType::NoExtern,
+            (5, true) => DataType::NoFuncNull,
+            (5, false) => DataType::NoFunc,
+            (6, true) => DataType::EqNull,
+            (6, false) => DataType::Eq,
+            (7, true) => DataType::StructNull,
+            (7, false) => DataType::Struct,
+            (8, true) => DataType::ArrayNull,
+            (8, false) => DataType::Array,
+            (9, true) => DataType::I31Null,
+            (9, false) => DataType::I31,
+            (10, true) => DataType::ExnNull,
+            (10, false) => DataType::Exn,
+            (_, true) => DataType::NoExnNull,
+            (_, false) => DataType::NoExn,
+        },
     }
 }
 
@@ -506,13 +532,43 @@ pub fn stmt_ops(s: &Stmt, w: &World) -> Vec<Operator<'static>> {
             v.push(Operator::RefFunc { function_index: *f });
             v.push(Operator::Drop);
         }
+        // i32 / i64 globals: two times in three the shared-everything-threads atomic form of the
+        // access (the statement names them); the flavour is a function of the world, not of the tape
         Stmt::GGet(g) => {
-            v.push(Operator::GlobalGet { global_index: *g });
+            let atomic = matches!(w.g[*g as usize].ty, VT::I32 | VT::I64) && (*g as usize + w.g.len() + w.f.len()) % 3 != 0;
+            if atomic {
+                v.push(Operator::GlobalAtomicGet { ordering: wasmparser::Ordering::SeqCst, global_index: *g });
+            } else {
+                v.push(Operator::GlobalGet { global_index: *g });
+            }
             v.push(Operator::Drop);
         }
         Stmt::GSet(g) => {
-            v.extend(const_ops(w.g[*g as usize].ty, 3));
-            v.push(Operator::GlobalSet { global_index: *g });
+            let ty = w.g[*g as usize].ty;
+            v.extend(const_ops(ty, 3));
+            let o = wasmparser::Ordering::SeqCst;
+            let k = if matches!(ty, VT::I32 | VT::I64) { (*g as usize + w.g.len() + w.f.len()) % 9 } else { 0 };
+            let gi = *g;
+            match k {
+                1 => v.push(Operator::GlobalAtomicSet { ordering: o, global_index: gi }),
+                2..=8 => {
+                    if k == 8 {
+                        // cmpxchg takes (expected, replacement)
+                        v.extend(const_ops(ty, 4));
+                    }
+                    v.push(match k {
+                        2 => Operator::GlobalAtomicRmwAdd { ordering: o, global_index: gi },
+                        3 => Operator::GlobalAtomicRmwSub { ordering: o, global_index: gi },
+                        4 => Operator::GlobalAtomicRmwAnd { ordering: o, global_index: gi },
+                        5 => Operator::GlobalAtomicRmwOr { ordering: o, global_index: gi },
+                        6 => Operator::GlobalAtomicRmwXor { ordering: o, global_index: gi },
+                        7 => Operator::GlobalAtomicRmwXchg { ordering: o, global_index: gi },
+                        _ => Operator::GlobalAtomicRmwCmpxchg { ordering: o, global_index: gi },
+                    });
+                    v.push(Operator::Drop);
+                }
+                _ => v.push(Operator::GlobalSet { global_index: gi }),
+            }
         }
         Stmt::Mem(kind, mem, mem2) => {
             let is64 = w.m[*mem as usize].is64;
